@@ -68,6 +68,22 @@ BUILT = {
             'Trusts vkit/oracles/zmxwriter.py (mirrors the syntax of the repository fixtures and real Zemax files) and '
             'the ABCD oracle; media of the paraxial clause are evaluated through the loaded material objects.',
             'DESIGN.md §4 C20'),
+    'C05': ('limit monitor: real traces at eps = 1e-1..1e-4 vs the library paraxial marginal/chief rays, verdict on error ratios per decade down to the float floor',
+            'Exploration: 294 (quick) / ~19k (thorough) lenses x 2 ray types x 4 decades; the normalised discrepancy '
+            'must shrink >= 20x per decade (at least quadratic) until the float floor and end below 1e-4 of its value at '
+            'eps=0.1; plus the three named consequences and Paraxial.trace(Hy,Py). Held = every explored lens showed '
+            'the decay. A limit cannot be decided by finite runs: two to three decades are observed per lens.',
+            'Paraxial side is the library\'s own marginal_ray/chief_ray (checked against ABCD by C04); lenses with an '
+            'even-asphere r^2 term (C04 finding) and the chief-type clause under object-space telecentric mode are excluded.',
+            'DESIGN.md §4 C05'),
+    'C10': ('exhaustive index-rule enumeration + reference-model monitors (independent Zernike oracle, exact disk quadrature, own lstsq fit)',
+            'Exploration, exhaustive for the index/normalisation part: all 120 indices x 3 families are enumerated in '
+            'both tiers (rule, order, no repeats, evaluated polynomial vs published R_n^m cos/sin, unit edge value, '
+            'Gram matrix by exact quadrature); fits: 540 (quick) / 9k (thorough) random recoveries over N=1..37, all '
+            'families, four point layouts; lens wavefront decompositions vs an independent least-squares fit.',
+            'Trusts vkit/oracles/zernike_rules.py (self-tested against hand-copied published tables at every shard start); '
+            'the sign of sine terms and Fringe term 37 follow the library (not fixed by the statement).',
+            'DESIGN.md §4 C10'),
 }
 
 NOT_YET = {}
